@@ -372,6 +372,9 @@ def r4_capacity(ctx, P):
                  where=b.where(), site="zst capacity")
 
 
+from . import stale
+
+
 def run(ctx, progs):
     ctx.assume("value numbering: len/as_mut_ptr are state readers versioned by the number of preceding state writes; "
                "pointer offsets scaled by the symbolic element size; no path-feasibility reasoning")
@@ -381,4 +384,5 @@ def run(ctx, progs):
         r2_bounds(ctx, P)
         r3_shuffles(ctx, P)
         r4_capacity(ctx, P)
+        stale.rule(ctx, P, "C08.R5", ("bump_vec::BumpVec<", "mut_bump_vec::MutBumpVec<", "mut_bump_vec_rev::MutBumpVecRev<"), 20, 25)
     ctx.config = None
